@@ -332,6 +332,9 @@ func (g *gen) field(fieldName string, fieldType types.Type) (string, error) {
 		case types.UnsafePointer:
 			return fmt.Sprintf("uint64(uintptr(%s))", fieldName), nil
 		case types.Uint64:
+			if !types.Identical(fieldType, typ) {
+				return fmt.Sprintf("uint64(%s)", fieldName), nil
+			}
 			return fmt.Sprintf("%s", fieldName), nil
 		case types.Float32:
 			if !types.Identical(fieldType, typ) {
